@@ -141,6 +141,35 @@ def extDegree (e : Int) (kind : Nat) (arg : Int) : Int :=
 def extRandomD (p e : Int) (kind : Nat) (arg : Int) (fuel : Nat) (old : List Int) (g : Int) : Option (List Int × Int) :=
   polyRandomD 32 true p (extDegree e kind arg) fuel old g
 
+/-! ## Poly1Dom<Domain>::random over any coefficient domain (givpoly1misc.inl) -/
+
+/-- what `Poly1Dom::random` uses of its coefficient domain: `_domain.random(g, c)` and `_domain.nonzerorandom(g, c)`, each as a
+    function of what `c` held and of the generator state -/
+structure CoefDraw where
+  randomD : Int → Int → Int × Int
+  nonzeroD : Nat → Int → Int → Option (Int × Int)
+
+/-- `for (int i = d; i--;) _domain.random(g, r[i])`: writes `r[i-1] … r[0]` in place -/
+def polyFillG (D : CoefDraw) : Nat → List Int → Int → List Int × Int
+  | 0, r, g => (r, g)
+  | i+1, r, g => polyFillG D i (r.set i (D.randomD (r.getD i 0) g).1) (D.randomD (r.getD i 0) g).2
+
+/-- `random(g, r, Degree d)`: `if (d == deginfty) { r.resize(0); return r; } r.resize(d+1); _domain.nonzerorandom(g, r[d]);` then the
+    lower coefficients from index `d-1` down to 0.  `old` is what the vector held. -/
+def polyRandomG (D : CoefDraw) (d : Int) (fuel : Nat) (old : List Int) (g : Int) : Option (List Int × Int) :=
+  if d < 0 then some (vresize old 0, g)
+  else
+    match D.nonzeroD fuel ((vresize old (d.toNat + 1)).getD d.toNat 0) g with
+    | none => none
+    | some lead => some (polyFillG D d.toNat ((vresize old (d.toNat + 1)).set d.toNat lead.1) lead.2)
+
+/-- `GFqDom<intN_t>` as a coefficient domain: `random(g, a)` is `random(g, a, _q)`, `nonzerorandom(g, a)` is one draw (no loop) -/
+def gfqCoef (bits : Nat) (q : Int) : CoefDraw :=
+  ⟨fun old g => gfqRandomD bits q q old g, fun _ old g => some (gfqNonzeroD bits q q old g)⟩
+
+/-- a `RingDraw` class as a coefficient domain -/
+def ringCoef (R : RingDraw) : CoefDraw := ⟨rRandomD R, rNonzeroD R⟩
+
 /-! ## QField<Rational> (qfield.h): numerator and denominator are draws of GMP's generator (abstract, as in Model/Random.lean) -/
 
 section QF
